@@ -1,7 +1,7 @@
 (* Tree/IndexProofsTiny.v — the tiny hand-made table set of Tree/Index.v satisfies TablesOK (so the theorems are not
    vacuous), and the witnesses of the finding classes of C04 / C05 on that table set. *)
 From AV Require Import Base.Bytes Base.Outcome Hash.HashModel Tree.Heap Tree.Ops Tree.Script Tree.Inv Tree.InvProofs.
-From AV Require Import Tree.Index Tree.IndexProofsBase Tree.IndexProofs Tree.Refs Tree.RefsProofsOps Tree.IndexProofsBridge.
+From AV Require Import Tree.Index Tree.IndexProofsBase Tree.IndexProofsTree Tree.IndexProofs Tree.Refs Tree.RefsProofsOps Tree.IndexProofsBridge.
 Import Tiny.
 Open Scope string_scope.
 Open Scope list_scope.
@@ -9,15 +9,15 @@ Open Scope N_scope.
 
 (* every data type index is one of 0..10, or the table has no entry *)
 Lemma tiny_dt_cases (P : N -> Prop) :
-  P 0 -> P 1 -> P 2 -> P 3 -> P 4 -> P 5 -> P 6 -> P 7 -> P 8 -> P 9 -> P 10 ->
+  P 0 -> P 1 -> P 2 -> P 3 -> P 4 -> P 5 -> P 6 -> P 7 -> P 8 -> P 9 -> P 10 -> P 11 ->
   (forall n, T_datatypes tiny n = None -> P n) -> forall n, P n.
 Proof.
-  intros H0 H1 H2 H3 H4 H5 H6 H7 H8 H9 H10 Hn n.
+  intros H0 H1 H2 H3 H4 H5 H6 H7 H8 H9 H10 H11 Hn n.
   destruct n as [|p]; [exact H0|].
   destruct p as [p|p|]; [| |exact H1];
   (destruct p as [p|p|]; [| |first [exact H2|exact H3]]);
   (destruct p as [p|p|]; [| |first [exact H4|exact H5|exact H6|exact H7]]);
-  try (destruct p as [p|p|]; [| |first [exact H8|exact H9|exact H10]]);
+  try (destruct p as [p|p|]; [| |first [exact H8|exact H9|exact H10|exact H11]]);
   try (apply Hn; reflexivity).
   all: try (destruct p; apply Hn; reflexivity).
 Qed.
@@ -196,4 +196,38 @@ Proof.
   destruct (model_at (wof (sr_pre ++ [sr_op])) 0) as [x|] eqn:Hx; [|vm_compute in Hx; discriminate Hx].
   destruct (HE x eq_refl (BS "/Abcdefgh/Sbcdefgh")) as (_ & Hiff). vm_compute in Hx. injection Hx as <-.
   destruct (proj1 (Hiff 7) (or_introl eq_refl)) as (_ & Ht). vm_compute in Ht. discriminate Ht.
+Qed.
+
+(* K04-copy-container: create_copied_sub_element of a NON-identifiable container (GROUP, like SDG) that holds an
+   identifiable element (/A/S): only the copied element itself would get a unique name; the nested element of the copy is
+   registered under the unchanged path /A/S and replaces the original's entry: two elements with path /A/S. *)
+Definition cc_pre : list op := pkgA ++ [OpCreateSub 4 nGROUP; OpCreateNamed 5 nSYSTEM (BS "S")].
+Definition cc_op : op := OpCopy 4 5.
+Example K04_copy_container_refuted :
+  (TreeFacts (wof cc_pre) /\ Inv04 tiny tiny_check_fn (wof cc_pre)) /\
+  Known04 tiny LATEST (wof cc_pre) cc_op = true /\
+  (exists i w', Tiny.run cc_op (wof cc_pre) = Val (OK (VElem i), w')) /\
+  ~ Inv04 tiny tiny_check_fn (wof (cc_pre ++ [cc_op])).
+Proof.
+  split; [destruct (script_inv cc_pre) as (H1 & H2 & _); [vm_compute; reflexivity|auto]|].
+  split; [vm_compute; reflexivity|]. split; [eexists; eexists; vm_compute; reflexivity|].
+  intros HI. pose proof (i4_exact _ _ _ HI 0) as HE. unfold IndexExact in HE.
+  destruct (model_at (wof (cc_pre ++ [cc_op])) 0) as [x|] eqn:Hx; [|vm_compute in Hx; discriminate Hx].
+  (* the original element 6 is still an identifiable part of the model with path /A/S, but the index maps /A/S elsewhere *)
+  specialize (HE x eq_refl (BS "/A/S") 6). vm_compute in Hx. injection Hx as <-.
+  set (W := wof (cc_pre ++ [cc_op])) in *.
+  assert (C01 : child_of W 0 1) by (eexists; split; [vm_compute; reflexivity|cbn; auto 10]).
+  assert (C12 : child_of W 1 2) by (eexists; split; [vm_compute; reflexivity|cbn; auto 10]).
+  assert (C24 : child_of W 2 4) by (eexists; split; [vm_compute; reflexivity|cbn; auto 10]).
+  assert (C45 : child_of W 4 5) by (eexists; split; [vm_compute; reflexivity|cbn; auto 10]).
+  assert (C56 : child_of W 5 6) by (eexists; split; [vm_compute; reflexivity|cbn; auto 10]).
+  assert (HS : SpecPath tiny W 0 6 (BS "/A/S")).
+  { eexists. split; [vm_compute; reflexivity|]. cbn [m_root].
+    exists (seg tiny W 1 ++ seg tiny W 2 ++ seg tiny W 4 ++ seg tiny W 5 ++ seg tiny W 6 ++ []).
+    split; [|vm_compute; reflexivity].
+    apply (dpath_cons tiny W 0 1 6 _ C01). apply (dpath_cons tiny W 1 2 6 _ C12). apply (dpath_cons tiny W 2 4 6 _ C24).
+    apply (dpath_cons tiny W 4 5 6 _ C45). apply (dpath_cons tiny W 5 6 6 _ C56). constructor. }
+  assert (HP : PathSet tiny W 0 (BS "/A/S") 6).
+  { split; [eapply specpath_mreach; exact HS|]. split; [vm_compute; reflexivity|exact HS]. }
+  apply HE in HP. vm_compute in HP. discriminate HP.
 Qed.
